@@ -277,7 +277,7 @@ func genLin(t *rapid.T) LinCase {
 
 func TestAtomic(t *testing.T) {
 	pbt.Run(t, pbt.Sub[LinCase]{
-		Name: "atomic", Quick: 96, Thorough: 3000,
+		Name: "atomic", Quick: 96, Thorough: 1200,
 		Gen: genLin, Check: checkLin, Precommit: true,
 	})
 }
